@@ -361,6 +361,7 @@ impl Family for OrderFam {
             c2s: PipeParams::default(),
             yields: case.yields.clone(),
             draw_seed: 1,
+            stall: None,
         };
         let run = c11::run_concurrent(&wc)?;
         c11::check_wire(&run)?;
